@@ -801,6 +801,7 @@ class QSerialization(DeconstructedSerialization):
     child_separators = {
         Q.OR: ' | ',
         Q.AND: ' & ',
+        getattr(Q, 'XOR', 'XOR'): ' ^ ',
     }
 
     @classmethod
@@ -867,7 +868,7 @@ class QSerialization(DeconstructedSerialization):
 
         if num_children == 0:
             result.append('models.Q()')
-        elif num_children == 1:
+        elif num_children == 1 and isinstance(value.children[0], tuple):
             child = value.children[0]
 
             result.append('models.Q(%s=%s)' % (child[0],
@@ -887,7 +888,9 @@ class QSerialization(DeconstructedSerialization):
                                     % (type(child), child))
 
             if len(children) == 1:
-                result.append(children)
+                # The only child is itself a Q(). Keep it wrapped, so that
+                # the nesting (and any negation of this Q) is preserved.
+                result.append('models.Q(%s)' % children[0])
             elif len(children) > 1:
                 result.append(
                     '(%s)'
